@@ -294,6 +294,29 @@ let run_case op t =
   | "notfnstatic" ->
       let v = next_z t in
       (join [ "ok"; b2s (notfn_static_m v) ], join [ "ok"; b2s (notfn_static_spec v) ])
+  | "ipfsizes" ->
+      (* the same history for every capture size: the model does not depend on the size *)
+      let nsizes = next_int t in
+      let n = nat_of_int 3 in
+      let one = zi 1 in
+      let ops = [ OCtorTarget (nat_of_int 0, one); OCopyCtor (nat_of_int 1, nat_of_int 0); OMoveCtor (nat_of_int 2, nat_of_int 0);
+                  OSwap (nat_of_int 1, nat_of_int 2); OCall (nat_of_int 1, zi 3); OCall (nat_of_int 2, zi 4); OBool (nat_of_int 0) ] in
+      let toks_of obs =
+        List.filter_map (fun ((tk, _), _) ->
+            match tk with TCall r -> Some ("c" ^ str_of_z r) | TEmpty -> Some "e" | TBool b -> Some ("b" ^ b2s b) | _ -> None) obs in
+      let all = [ zi 0; zi 1; zi 2 ] in
+      let model =
+        match run_m [] all n init_state ops with
+        | Bad e -> "ub " ^ lerr_s e
+        | Good (s, obs) -> (
+            match destroy_all n s with
+            | Bad e -> "ub-at-destruction " ^ lerr_s e
+            | Good s' ->
+                join ([ "ok" ] @ toks_of obs
+                      @ [ "live" ^ string_of_int (int_of_nat (live_m all n s')); "bad0"; "sizes"; string_of_int nsizes ])) in
+      let _, sobs = run_s [] all n init_astate ops in
+      let spec = join ([ "ok" ] @ toks_of sobs @ [ "live0"; "bad0"; "sizes"; string_of_int nsizes ]) in
+      (model, spec)
   | "ipf" ->
       let pal = next_int t in
       let nw0 = next_int t in
